@@ -13,6 +13,8 @@ Events (JSON-able):
   ['recv', hdr, data]      a packet arrives on the current link (ignored when there is no link)
   ['recvcb', hdr, data, [[rid, hdr, data, exp, timeout_ms|None], ...]]
                            a packet arrives and the port callback handling it (inside the real dispatch) sends these requests
+  ['closex', {'c0': [...], 'c1': [...], 'd': [...]}]   close_link() with another thread acting inside link.close() (before /
+                           after the driver closed) and from a disconnected callback
   ['open', nr]             cf.open_link(...) with a link whose needs_resending is nr (ignored when a link is open)
   ['close']                cf.close_link()
   ['linkerr']              the driver reports an error (cf._link_error_cb)
@@ -68,6 +70,7 @@ def _the_cf():
 
 class Run:
     def __init__(self, cf=None):
+        self.close_hook = None  # set while a 'closex' event runs: called inside link.close()
         self.gate = None        # optional hook called inside link.send_packet before the packet counts as transmitted
         import cflib.crazyflie as cfmod
         import cflib.crtp
@@ -102,7 +105,10 @@ class Run:
                 rid = run.pk_rid.get(id(pk))
                 # what counts is the moment the packet is handed to the driver (the call may block)
                 rec = {'sess': self.session, 'rid': rid, 't': run.now, 'closed': self.closed, 'current': run.cf.link is self,
-                       'ev': run.ev_index}
+                       'ev': run.ev_index,
+                       # handed to the driver while close_link() is between link.close() and `self.link = None`: a
+                       # closed driver drops the packet (C10_closed_driver_writes_nothing), nothing reaches the device
+                       'dropped': self.closed and run.close_hook is not None}
                 if run.gate is not None:
                     if run.gate(pk, rid) == 'drop':     # may block (a blocking driver), raise, or drop the packet
                         return
@@ -116,7 +122,11 @@ class Run:
                 raise _Stop()
 
             def close(self):
+                if run.close_hook is not None:
+                    run.close_hook('c0')        # hand-over: close_link() has sent its setpoint, the driver is still open
                 self.closed = True
+                if run.close_hook is not None:
+                    run.close_hook('c1')        # hand-over: the driver is closed, cf.link still refers to it
 
         self.FakeLink = FakeLink
         self.saved = (cfmod.Timer, list(cflib.crtp.CLASSES))
@@ -224,6 +234,32 @@ class Run:
                     self.died = type(e).__name__
                 finally:
                     cf.remove_port_callback(port, cb)
+        elif k == 'closex':
+            # close_link() as a multi-step transition with ANOTHER THREAD acting at its hand-over points:
+            # hooks = {'c0': [...], 'c1': [...], 'd': [...]} lists of send / recv / recvcb events performed inside
+            # link.close() before / after the driver closed itself, and from a `disconnected` callback (after the timers
+            # were cancelled).  For the model: the events of c0 and c1, then close, then those of d.
+            import threading
+            self.expanded.pop()
+            hooks = ev[1]
+
+            def other_thread(key):
+                evs = hooks.get(key) or []
+                if evs:
+                    th = threading.Thread(target=lambda: [self.step(e) for e in evs], name='c10-other-thread')
+                    th.start()
+                    th.join()
+
+            def on_disconnected(uri):
+                self.expanded.append(['close'])
+                other_thread('d')
+            self.close_hook = other_thread
+            cf.disconnected.add_callback(on_disconnected)
+            try:
+                cf.close_link()
+            finally:
+                self.close_hook = None
+                cf.disconnected.remove_callback(on_disconnected)
         elif k == 'open':
             if cf.link is None:
                 self.next_nr = bool(ev[1])
